@@ -9,6 +9,7 @@ import (
 	"fmt"
 	"math/big"
 	"net"
+	"os"
 	"sort"
 	"strings"
 	"time"
@@ -20,6 +21,7 @@ import (
 	"verifmc/explore"
 	"verifmc/reg"
 	"verifmc/sched"
+	"verifmc/verifsched"
 )
 
 func init() {
@@ -59,7 +61,7 @@ func (p Pool) String() string {
 // Op is one operation of the alphabet. Hint/Free targets are given concretely so that a
 // replay file is self-contained.
 type Op struct {
-	Kind string `json:"kind"`           // "alloc" | "free"
+	Kind string `json:"kind"`           // "alloc" | "free" | "tick" (an hour of virtual time passes; instrumented build only)
 	IP   string `json:"ip,omitempty"`   // hex bytes of the IP (4 or 16), empty = nil
 	Mask string `json:"mask,omitempty"` // hex bytes of the mask, empty = nil
 	Note string `json:"note,omitempty"` // human description of the alphabet entry
@@ -128,6 +130,7 @@ type Sys struct {
 	hist    []Op
 	dead    bool // a panic escaped the allocator: the instance is not used any further
 	broken  bool
+	dirty   bool // ghost: something was freed since time last passed
 }
 
 func NewSys(r *ev.Run, id string, p Pool, foreign, rich bool) *Sys {
@@ -288,6 +291,9 @@ func (s *Sys) Ops() []Op {
 			out = append(out, o)
 		}
 	}
+	if s.dirty && instrumented {
+		out = append(out, Op{Kind: "tick", Note: "an hour passes"})
+	}
 	return out
 }
 
@@ -305,8 +311,12 @@ func (s *Sys) Key() string {
 		h = append(h, i)
 	}
 	sort.Slice(h, func(i, j int) bool { return h[i] < h[j] })
-	return fmt.Sprintf("bits=%v held=%v", s.bits(), h)
+	return fmt.Sprintf("bits=%v held=%v freed-since-tick=%v", s.bits(), h, s.dirty)
 }
+
+// instrumented: the binary was built with the overlay (the allocators then read the clock
+// through the scheduler's virtual clock, which the tick operation advances).
+var instrumented = os.Getenv("VERIF_SCHED") == "1"
 
 type Case struct {
 	Pool Pool `json:"pool"`
@@ -353,6 +363,16 @@ func (s *Sys) Apply(op Op, live bool) (obs string) {
 	}
 	s.hist = append(s.hist, op)
 	g := s.g
+	if op.Kind == "tick" {
+		// an allocator is a pure data structure: the passing of time changes nothing. (If the
+		// instrumented allocator reads the clock, it sees an hour more from now on.)
+		verifsched.AdvanceGlobal(time.Hour)
+		s.dirty = false
+		if live {
+			s.r.Eval("tick")
+		}
+		return "tick"
+	}
 	ipn := net.IPNet{IP: net.IP(unhx(op.IP)), Mask: net.IPMask(unhx(op.Mask))}
 	defer func() {
 		if e := recover(); e != nil {
@@ -468,6 +488,9 @@ func (s *Sys) Apply(op Op, live bool) (obs string) {
 			case err != nil && after != before:
 				s.violate("C06", "failed-free-changed-state", fmt.Sprintf("failed Free(%s) changed bitmap %s -> %s", ipn.String(), before, after))
 			}
+		}
+		if err == nil {
+			s.dirty = true
 		}
 		if err == nil && want {
 			delete(s.held, tgt)
